@@ -13,7 +13,9 @@ from rv.gen import geoms
 TASKS = ["clip_classification", "clip_multilabel_classification", "sound_event_classification", "sound_event_detection"]
 NS = uuid.UUID(int=0x5EED)
 # "x@ns" names a term of its own (name "ns:x") whose *label* is "x": two different terms may share a label
-LABELS = ["species", "call_type", "genus@dwc", "genus@fieldguide"]
+# "@": terms of two namespaces sharing a label; "#": a term with the SAME name as another one but other label / definition
+# (a local revision of a vocabulary term) -- unequal terms, so tags with them are different classes
+LABELS = ["species", "call_type", "genus@dwc", "genus@fieldguide", "genus@dwc#rev"]
 VALS = ["a", "b", "c", "d", "e", "f", "g"]
 EPS = 1e-9
 
@@ -202,6 +204,10 @@ def _u(*parts):
 def term_of(label_id):
     from soundevent import data
 
+    if "#" in label_id:
+        base, rev = label_id.split("#")
+        label, ns = base.split("@")
+        return data.Term(name=f"{ns}:{label}", label=f"{label} ({rev})", definition=f"{label} as revised locally ({rev})", uri=f"http://example.org/{ns}/{label}")
     if "@" in label_id:
         label, ns = label_id.split("@")
         return data.Term(name=f"{ns}:{label}", label=label, definition=f"{label} as understood by {ns}", uri=f"http://example.org/{ns}/{label}")
